@@ -141,7 +141,12 @@ class WfGen:
             self.feats.add("default")
             ins["x"] = {"default": rng.choice([7, 70])}
         self.feats.add("tool:" + tool)
-        self.steps[st] = {"run": TOOLS[tool](), "in": ins, "out": ["o"]}
+        run = TOOLS[tool]()
+        if tool == "wc":
+            # one file name per step: two `wc` steps whose files both reach the output directory would otherwise collide there, and
+            # the name chosen for the second file on a collision is the runner's own business (wc_out-1.txt vs wc_out.txt_2)
+            run["stdout"] = run["outputs"]["o"]["outputBinding"]["glob"] = f"wc_out_{st}.txt"
+        self.steps[st] = {"run": run, "in": ins, "out": ["o"]}
         self.out(st, "o", sig[1])
 
     def t_scatter1(self, d):
